@@ -330,8 +330,12 @@ static void lock_err(const char *what, MLock *l) {
 }
 static void *ml_alloc(unsigned locktype) { MLock *l = new MLock{locktype, 0, ++g_lock_ids, false}; return l; }
 static void ml_free(void *p, unsigned) { MLock *l = (MLock *)p; if (l->count) { lock_err("free of a held lock", l); g_held_total -= l->count; g_held.erase(l->id); } delete l; }
+static int g_try_fail; uint64_t sim_try_failed;
+extern "C" void sim_lockmon_fail_try(int n) { g_try_fail = n; }
 static int ml_lock(unsigned mode, void *p) {
   MLock *l = (MLock *)p; sim_lock_ops++;
+  // injected: the lock is "held by another thread", so a try-lock fails without acquiring anything
+  if ((mode & EVTHREAD_TRY) && g_try_fail > 0) { g_try_fail--; sim_try_failed++; return 1; }
   if (l->count > 0 && !(l->locktype & EVTHREAD_LOCKTYPE_RECURSIVE)) {
     if (mode & EVTHREAD_TRY) return 1;
     lock_err("second acquire of a non-recursive lock (self-deadlock)", l);
